@@ -128,7 +128,7 @@ pub fn run(ctx: &Ctx) -> i32 {
     let assignments: Vec<[&'static str; 4]> = if th {
         vec![["schnorr", "ed25519", "ecdsa", "ed25519"], ["ssh-ed25519", "mldsa44", "schnorr", "ecdsa"], ["ecdsa", "ssh-ecdsa-p256", "ed25519", "ssh-ed25519"], ["mldsa65", "ssh-dsa", "ssh-ed25519", "schnorr"]]
     } else { vec![["schnorr", "ed25519", "ecdsa", "ed25519"], ["ssh-ed25519", "mldsa44", "ed25519", "schnorr"]] };
-    let bases: Vec<M> = families::plain(if th { 4 } else { 3 });
+    let bases: Vec<M> = { let mut b = families::plain(if th { 4 } else { 3 }); b.extend(families::nsn().into_iter().take(if th { 10 } else { 2 })); b };
     let key = bind::key0();
     let mut acc = Acc::new();
     // scheme-level self-check: a signature made with a private key verifies under the matching public key, over 1500 fixed digests per scheme
